@@ -205,7 +205,7 @@ Section NoRaise.
       match goal with |- post _ _ (if ?b then _ else _) => destruct b eqn:Elen end; [|exact I].
       eapply items_inv; [exact HF|exact EL| | |exact Hc|intros k Hk; left; exact Hk].
       - destruct tail; [apply Nat.leb_le in Elen|apply Nat.eqb_eq in Elen]; lia.
-      - intros lctx ret Hcl Hil. subst s2. apply fin_post; assumption. }
+      - intros lctx ret Hcl Hil. subst s2. eapply fin_post; eassumption. }
     destruct items as [|i0 items'].
     - destruct tail as [tc|]; [apply Hgen; right; discriminate|].
       simpl in EL. inversion EL; subst ms s1; clear EL. subst s2.
